@@ -9,6 +9,7 @@ theorem verdict : (classify Generated.factsC02).Sound (Holds (cfgOf Generated.fa
 #eval IO.println (verdictLine "C02" (classify Generated.factsC02))
 #print axioms verdict
 #print axioms recover_total_prefix
+#print axioms recover_maximal
 #print axioms append_after_recovery
 #print axioms holds_of_repaired
 #print axioms torn_block_load_error
